@@ -485,6 +485,11 @@ class AbsInt:
             return None
         nm = p.split("::")[-1]
         pars = [v[0] for v in av]
+        if nm in ("dot",) and len(av) == 2 and pars[0] == pars[1] and pars[0] in ("XV", "YV"):
+            # f(X) for a fixed scalar function f: exchanged with f(Y) by the swap (like an element pair)
+            return ((pars[0][0], "dot-self"), "T", "NN")
+        if nm in ("sum", "norm2", "max", "min") and len(av) == 1 and pars[0] in ("XV", "YV"):
+            return ((pars[0][0], nm), "T", "NN" if nm == "norm2" else "T")
         if nm == "dot" and len(av) == 2:
             same = self._same_value(args[0], args[1])
             if set(pars) == {"XV", "YV"} or (pars[0] == pars[1] and pars[0] in ("SV", "AV")):
